@@ -184,6 +184,11 @@ struct X
             }
             return;
         }
+        if (k.comments_between && rng.chance(0.08)) {
+            // an element the reader does not know (a tool's extension) between two known siblings: skipped by the reader
+            nl();
+            os << (rng.chance(0.5) ? "<extension tool=\"x\"/>" : "<extension><note>n</note></extension>");
+        }
         ++label_count;
         if (paths)
             (*paths)[std::string{kind} + parent_key] = parent_path + "/label[" + std::to_string(label_count) + "]";
@@ -222,6 +227,8 @@ std::string join_params(const std::vector<MParam>& ps, const char* sep = ", ")
 {
     std::string s;
     for (auto& p : ps) {
+        if (p.text.empty())
+            continue;  // written as part of the previous parameter's group ("const a, b")
         if (!s.empty())
             s += sep;
         s += p.text;
@@ -389,12 +396,17 @@ std::string render_xml(const Model& m, const XmlKnobs& k, Rng& rng, std::map<std
         x.nl();
         x.os << "</template>";
     }
-    x.block("system", system_text(m), true);
+    if (!m.omit_system)
+        x.block("system", system_text(m), true);
     if (!m.queries.empty()) {
         x.nl();
         x.os << "<queries>";
         x.level = 2;
         for (auto& q : m.queries) {
+            if (k.empty_elems && rng.chance(0.2)) {
+                x.nl();
+                x.os << "<query/>";  // an empty query element is legal (and ignored)
+            }
             x.nl();
             x.os << "<query>";
             x.level = 3;
@@ -515,7 +527,8 @@ std::string render_xta(const Model& m)
         }
         os << "}\n";
     }
-    os << system_text(m) << "\n";
+    if (!m.omit_system)
+        os << system_text(m) << "\n";
     return os.str();
 }
 
